@@ -25,7 +25,14 @@ EOM
 if [ "$SMOKE" = "--smoke" ]; then
   # equivalence smoke test: the repository's own tests against the instrumented
   # copy with the runtime in pass-through mode
-  (cd "$SCR/copy" && go test -vet=off -count=1 -timeout 20m . ./internal/hmac/ >"$SCR/smoke.log" 2>&1) || { tail -50 "$SCR/smoke.log" >&2; echo "build.sh: equivalence smoke test failed" >&2; exit 2; }
+  # (some of the repository's own client tests are timing based and can hang on a
+  # loaded machine: bounded time, three attempts)
+  ok=0
+  for attempt in 1 2 3; do
+    if (cd "$SCR/copy" && go test -vet=off -count=1 -timeout 180s . ./internal/hmac/ >"$SCR/smoke.log" 2>&1); then ok=1; break; fi
+    echo "build.sh: smoke attempt $attempt failed, retrying" >&2
+  done
+  [ $ok = 1 ] || { tail -50 "$SCR/smoke.log" >&2; echo "build.sh: equivalence smoke test failed" >&2; exit 2; }
   echo "smoke: repository tests pass against the instrumented copy (pass-through runtime)"
 fi
 mkdir "$SCR/sim"
